@@ -232,13 +232,23 @@ func c09X4(r *Run, rep *core.Report) {
 		roles := fieldRoles(r)
 		core.Instrs(ctor, func(in ssa.Instruction) {
 			c, ok := in.(ssa.CallInstruction)
-			if !ok || core.CalleeID(c) != "(*sync/atomic.Value).Store" {
+			if !ok {
+				return
+			}
+			if id := core.CalleeID(c); !strings.HasPrefix(id, "(*sync/atomic.") || !strings.HasSuffix(id, ".Store") || len(c.Common().Args) != 2 {
 				return
 			}
 			dst := core.Addr(c.Common().Args[0])
 			val := c.Common().Args[1]
 			if mi, isMI := val.(*ssa.MakeInterface); isMI {
 				val = mi.X
+			}
+			val = core.StripConv(val)
+			// atomic.Pointer[T].Store(&x): the setting is the value the constructor put into x
+			if al, isA := val.(*ssa.Alloc); isA {
+				if st := uniqueStore(al); st != nil {
+					val = core.StripConv(st.Val)
+				}
 			}
 			ld, isLd := val.(*ssa.UnOp)
 			src := ""
